@@ -107,7 +107,7 @@ type Normalized struct {
 	Mapping map[string]string // VariablesMapper: new name -> original name
 }
 
-// Full runs the complete sequence: Validate, then Normalize(WithExtractVariables), then VariablesMapper.
+// Full runs the complete sequence: Validate, then Normalize(WithExtractVariables, WithRemoveUnusedVariables), then VariablesMapper.
 func Full(req *graphql.Request, schema *graphql.Schema) (out Normalized) {
 	defer func() {
 		if r := recover(); r != nil {
@@ -118,7 +118,8 @@ func Full(req *graphql.Request, schema *graphql.Schema) (out Normalized) {
 	if !out.Accept {
 		return out
 	}
-	nres, err := req.Normalize(schema, astnormalization.WithExtractVariables())
+	// second Normalize call of Execute: extract variables and drop the definitions extraction made unused (repo 4c13c31)
+	nres, err := req.Normalize(schema, astnormalization.WithExtractVariables(), astnormalization.WithRemoveUnusedVariables())
 	if err != nil {
 		out.Outcome = Outcome{Stage: "extract", Msg: err.Error()}
 		return out
